@@ -33,7 +33,7 @@ THEOREMS = [
     "c16_entry_gap_orphans",
     "c16_returned_value_was_written_by_child", "c16_dead_child_never_answers",
     "c16_eof_is_not_exit", "c16_reuse_sound", "c16_exit_once_leaks_on_reuse", "c16_failed_handshake_cleans_up",
-    "c16_concurrent_no_fabricated_result", "c16_concurrent_clients_independent",
+    "c16_concurrent_no_fabricated_result", "c16_concurrent_clients_independent", "c16_client_settings_irrelevant",
 ]
 RULE = (
     "real children {well-behaved, exits at step k (k=0..4), ignores SIGTERM after signalling readiness, never reads stdin, "
@@ -149,9 +149,31 @@ def host_runner_enabled():
     return True
 
 
+def version_product():
+    """the protocol version the handshake settled on, on the CLIENT object (with / without JSON-RPC batching), crossed
+    with children that send batch arrays and do not read what the client writes back"""
+    out = []
+    for v in ("2025-06-18", "2025-03-26", "2024-11-05"):
+        for api in ("StdioClient", "StdioTransport"):
+            for p in H.PATHS:
+                out.append(_case("flood", p, "before", api=api, version=v, batch=True))
+                out.append(_case("flood", p, "inflight", api=api, version=v, batch=True, backlog=BACKLOG))
+            out.append(_case("well", "normal", "after", api=api, version=v, chatty=True))
+            out.append(_case("stops_reading", "cancel", "after", api=api, version=v, backlog=BACKLOG))
+    for p in H.PATHS:
+        out.append(_case("flood", p, "before", api="with_initialize", batch=True))
+    return out
+
+
 def host_runner_product():
     out = []
     groups = [[{"behaviour": "well"}], [{"behaviour": "ignore_term"}], [{"behaviour": "well", "on_term": 0}],
+              # a server that goes mute / dies with the handshake in flight, alone and after a good one; no "timeout" key,
+              # and with one
+              [{"behaviour": "well", "mute_on_initialize": True}],
+              [{"behaviour": "well"}, {"behaviour": "well", "die_on_initialize": True}],
+              [{"behaviour": "well"}, {"behaviour": "never_reads"}, {"behaviour": "well"}],
+              [{"behaviour": "well", "cfg_timeout": 30}, {"behaviour": "well", "mute_on_initialize": True, "cfg_timeout": 1}],
               [{"behaviour": "well", "term_delay": 0.5}, {"behaviour": "well"}],
               [{"behaviour": "well"}, {"behaviour": "ignore_term"}, {"behaviour": "slow_start"}]]
     for g in groups:
@@ -310,6 +332,11 @@ DIRECTED = [
     _case("flood", "cancel", "before", self_exit=3),
     _case("well", "cancel", "after", on_term=0),
     _case("exit_at", "normal", "after", k=2, code=0),
+    # the negotiated protocol version on the client, a child that sends batches and does not read the replies
+    _case("flood", "normal", "before", api="StdioClient", version="2025-06-18", batch=True),
+    _case("flood", "cancel", "before", api="StdioTransport", version="2025-06-18", batch=True),
+    _case("flood", "exception", "inflight", api="StdioClient", version="2025-03-26", batch=True, backlog=BACKLOG),
+    _case("flood", "timeout", "before", api="with_initialize", batch=True),
     # what the body raises: unprintable, groups, the classes the wrappers filter; a host logger that formats at DEBUG
     _case("well", "exception", "after", exc_class="unprintable"),
     _case("well", "exception", "before", exc_class="unreprable", logging="debug"),
@@ -373,21 +400,22 @@ class Scenarios(Suite):
     def cases(self, ctx, budget):
         rng = ctx.sub_rng("c16", budget)
         if budget == "quick":
-            full = product(H.APIS) + backlog_product() + reuse_product() + hardening_product() + body_exception_product() + status_product() + stderr_product() + concurrent_product()
+            full = product(H.APIS) + backlog_product() + reuse_product() + hardening_product() + version_product() + body_exception_product() + status_product() + stderr_product() + concurrent_product()
             out = [dict(c) for c in DIRECTED] + [dict(c) for c in rng.sample(full, 6)]
             out += entry_scan(8, 160)
             out += [BAD[0], BAD[4], BAD[8]] + [b for b in BAD if b.get("attempts") == 2 and b["bad"] == "missing"] \
                 + [b for b in BAD if b.get("attempts") == 3 and b["bad"] == "not-executable" and b["api"] != "stdio_client"]
         elif budget == "thorough":
             out = (product(H.APIS) + backlog_product(H.APIS) + reuse_product() + reuse_product(("StdioClient",), (3,))
-                   + hardening_product() + body_exception_product() + status_product() + stderr_product() + concurrent_product()
+                   + hardening_product() + version_product() + body_exception_product() + status_product() + stderr_product() + concurrent_product()
                    + entry_scan(2, 200) + entry_scan(8, 160, H.APIS[1:]) + BAD)
         else:  # search
             out = (product(["stdio_client"], nreq=1, junk=False) + backlog_product() + reuse_product(("StdioClient", "StdioTransport"))
-                   + hardening_product() + body_exception_product() + status_product() + stderr_product() + concurrent_product()
+                   + hardening_product() + version_product() + body_exception_product() + status_product() + stderr_product() + concurrent_product()
                    + entry_scan(4, 160) + BAD[:4])
         if host_runner_enabled():
-            out += host_runner_product()[: (4 if budget == "quick" else None)]
+            hp = host_runner_product()
+            out += hp if budget != "quick" else [hp[0], hp[3], hp[6], hp[8], hp[10], hp[13]]
         for i, c in enumerate(out):
             if "bad" not in c:
                 c["nonce"] = f"{budget[0]}{i}"
@@ -408,9 +436,15 @@ class Scenarios(Suite):
         if case.get("concurrent"):
             return {"m": "shutdown", "path": case["path"], "concurrent": case["concurrent"]}
         if case.get("servers"):
-            return {"m": "shutdown", "path": "normal", "concurrent": [
-                {"behaviour": "slow_term", "term_delay_ms": int(sp["term_delay"] * 1000)} if "term_delay" in sp
-                else {"behaviour": sp["behaviour"]} for sp in case["servers"]]}
+            def beh(sp):
+                if sp.get("die_on_initialize"):
+                    return {"behaviour": "exit_at", "k": 0}
+                if sp.get("mute_on_initialize"):
+                    return {"behaviour": "never_reads"}
+                if "term_delay" in sp:
+                    return {"behaviour": "slow_term", "term_delay_ms": int(sp["term_delay"] * 1000)}
+                return {"behaviour": sp["behaviour"]}
+            return {"m": "shutdown", "path": "normal", "concurrent": [beh(sp) for sp in case["servers"]]}
         if "self_exit" in case:
             # it answers what it was asked (if it is a child that answers) and is gone when the exit begins
             answered = case.get("nreq", 1) if (case["moment"] == "after" and H.answers(case, 1)) else 0
@@ -443,6 +477,12 @@ class Scenarios(Suite):
             "requests": ["returned" if r["outcome"] == "returned" else "timeout"
                          for r in o["requests"] if not r.get("held")],
         }
+        if case.get("servers"):
+            # the command function only sees the servers that completed the handshake; total time against its own budget
+            mine["bounded"] = not o.get("hang") and o.get("total_ms", 0) <= o.get("budget_ms", 0)
+            mine.pop("requests")
+            m = {k: v for k, v in m.items() if k != "requests"}
+            mine["raised_on_enter"] = False
         return None if mine == m else "differs"
 
     # -- property oracle (implementation observation only) ---------------------------------
@@ -461,9 +501,14 @@ class Scenarios(Suite):
             return None
         if case.get("servers"):
             n = len(case["servers"])
-            names = "+".join(sp["behaviour"] for sp in case["servers"])
+            names = "+".join(sp["behaviour"] + ("(mute at initialize)" if sp.get("mute_on_initialize") else "(dies at initialize)"
+                             if sp.get("die_on_initialize") else "") for sp in case["servers"])
             what = f"server_manager.run_command with {n} server(s) [{names}], command function {'raises' if case['path'] == 'exception' else 'returns'}"
             bound = H.GRACE_MS * n + H.SLACK_MS
+            if o.get("hang") or o.get("total_ms", 0) > o.get("budget_ms", 10 ** 9):
+                return ("unbounded/run_command", f"{what}: run_command had not returned after {o.get('total_ms')} ms (a handshake "
+                        f"nobody answers is bounded by send_initialize's default, scaled here to {int(H.INIT_SCALED_S * 1000)} ms; "
+                        f"budget {o.get('budget_ms')} ms)", {"total_ms": f"<= {o.get('budget_ms')}"})
             if o["duration_ms"] is not None and o["duration_ms"] > bound:
                 return ("unbounded/run_command", f"{what}: leaving the {n} context(s) took {o['duration_ms']} ms", {"duration_ms": f"<= {bound}"})
             if o["state"] == "running":
@@ -558,7 +603,8 @@ class Scenarios(Suite):
             return f"bad-command/{case['bad']}/{case.get('api')}{'x%d' % case['attempts'] if case.get('attempts', 1) > 1 else ''}"
         b = case["behaviour"] + ("%d" % case["k"] if "k" in case else "")
         if case.get("servers"):
-            return f"run_command:{'+'.join(sp['behaviour'] for sp in case['servers'])}/{case['path']}"
+            return "run_command:" + "+".join(sp["behaviour"] + ("-mute" if sp.get("mute_on_initialize") else "-dies" if sp.get("die_on_initialize") else "")
+                                             for sp in case["servers"]) + "/" + case["path"]
         if case.get("concurrent"):
             b = "concurrent:" + "+".join(sp["behaviour"] + ("%d" % sp["k"] if "k" in sp else "") for sp in case["concurrent"]) \
                 + "/" + case.get("req_api", "legacy")
@@ -574,7 +620,7 @@ class Scenarios(Suite):
             return f"{b}/{case['path']}/entry-{'cut' if not o['entered'] else 'body'}/{case.get('api')}"
         if case["behaviour"] == "close_stdout":
             b += "-" + case.get("linger", "eof") + ("@%d" % case["close_after"] if case.get("close_after") else "")
-        flags = "".join("+" + k for k in ("logging", "stderr_flood", "chatty", "falsy_result", "term_delay", "env", "stderr", "hostile_args", "nested", "legacy",
+        flags = "".join("+" + k for k in ("version", "batch", "logging", "stderr_flood", "chatty", "falsy_result", "term_delay", "env", "stderr", "hostile_args", "nested", "legacy",
                                           "exc_text", "req_id", "empty_x", "backlog_bytes") if case.get(k) is not None)
         if case.get("backlog", 0) > 95:
             flags += "+queue-full"
@@ -614,7 +660,7 @@ class Scenarios(Suite):
                                order=[ren[i] for i in case.get("order", []) if i in ren],
                                send_order=[ren[i] for i in case.get("send_order", []) if i in ren])
             return
-        for k in ("logging", "exc_class", "on_term", "self_exit", "code", "stderr_flood"):
+        for k in ("version", "batch", "logging", "exc_class", "on_term", "self_exit", "code", "stderr_flood"):
             if k in case:
                 yield {a: b for a, b in case.items() if a != k}
         for k in ("chatty", "falsy_result", "env", "stderr", "hostile_args", "legacy", "exc_text", "req_id", "empty_x", "backlog_bytes"):
